@@ -43,10 +43,13 @@ func init() {
 				info := u.Pkg.TypesInfo
 				ast.Inspect(u.Decl.Body, func(n ast.Node) bool {
 					cc, ok := n.(*ast.CaseClause)
-					if !ok || len(cc.List) != 1 || len(cc.Body) == 0 {
+					if !ok || len(cc.List) == 0 || len(cc.Body) == 0 {
 						return true
 					}
-					opName, ok := constStringVal(info, cc.List[0])
+					// `case "dotimes", "dolist":` hands several operators of one shape to one handler
+					for _, caseExpr := range cc.List {
+					func() bool {
+					opName, ok := constStringVal(info, caseExpr)
 					if !ok {
 						return true
 					}
@@ -129,6 +132,9 @@ func init() {
 						} else {
 							obs = append(obs, mkOb(c, rid, hu, construct, hd, Violated, "the evaluator ("+eu.Name()+") evaluates the form at position "+k+" of its arguments, but "+h.Name()+" never passes that form to analyzeExpr: references inside it are invisible to the analysis (unresolved, not renamed with their definition by the minifier, never arity-checked)", true))
 						}
+					}
+					return true
+					}()
 					}
 					return true
 				})
